@@ -82,6 +82,15 @@ CHECKS = {
          'identifier/payload strings.',
     note='History space enumerated by CrossHair path search (each path = one concrete history run natively incl. orjson). load_file() not exercised.',
     technique='symbolic path exploration (CrossHair + z3) over operation histories of the real parser API'),
+ 'C08': dict(
+    cat='model_checking', ref='DESIGN.md §3 C08',
+    text='Hash seed and set insertion order are turned into explicit solver-chosen variables (iteration-order permutation of every explicit '
+         'name set, and of the sets the library builds itself): for 5 configuration templates x all permutations the rendered configuration '
+         'text, match result and the complete Builder.build output (names, contents, hashes) must be identical. Counterexamples are confirmed '
+         'by child interpreters under PYTHONHASHSEED=0..31. MD5 clause: exploration only (hashlib is a C boundary).',
+    note='Assumes seed/insertion order act only through set/dict iteration order; name `set` in two dznpy modules is bound to an order-controlled '
+         'set subclass during the build harness. MD5 identity checked on realised witnesses against an independent RFC 1321 implementation.',
+    technique='symbolic path exploration (CrossHair + z3) with iteration order as a symbolic permutation; replay across real hash seeds'),
 }
 
 NOT_APPLICABLE = {
